@@ -68,6 +68,8 @@ def spell_regex(r, binary=False, top=True):
             return '\\t'
         if c == 13:
             return '\\r'
+        if c == 12:
+            raise ValueError('form feed cannot be spelled in a text regex')
         return chr(c)
     if k == 'cc':
         return '\\' + r['n']
@@ -79,7 +81,18 @@ def spell_regex(r, binary=False, top=True):
             if it[0] == 'ch':
                 items.append(spell_set_elem(it[1], binary))
             elif it[0] == 'range':
-                items.append(spell_set_elem(it[1], binary).rstrip() + '-' + spell_set_elem(it[2], binary))
+                lo, hi = it[1], it[2]
+                # white space cannot be a raw range endpoint (the lexer ignores it): peel such endpoints off as single elements
+                while not binary and lo <= hi and lo in _WS_ESC:
+                    items.append(spell_set_elem(lo, binary))
+                    lo += 1
+                while not binary and lo <= hi and hi in _WS_ESC:
+                    items.append(spell_set_elem(hi, binary))
+                    hi -= 1
+                if lo == hi:
+                    items.append(spell_set_elem(lo, binary))
+                elif lo < hi:
+                    items.append((spell_set_elem(lo, binary).rstrip(' ') if binary else spell_set_elem(lo, binary)) + '-' + spell_set_elem(hi, binary))
             else:
                 items.append('\\' + it[1])
         return ('[^' if r['inv'] else '[') + ''.join(items) + ']'
@@ -107,9 +120,18 @@ def spell_regex(r, binary=False, top=True):
     raise ValueError(k)
 
 
+# "The space character must be escaped, due to limitations in the lexer" (docs/user-ref/parser.md): the grammar ignores
+# white space everywhere, also inside sets
+_WS_ESC = {0x20: '\\ ', 9: '\\t', 10: '\\n', 13: '\\r'}
+
+
 def spell_set_elem(c, binary):
     if binary:
         return '%02x ' % c
+    if c in _WS_ESC:
+        return _WS_ESC[c]
+    if c == 12:
+        raise ValueError('form feed cannot be spelled in a text regex')
     if chr(c) in '-]\\/':
         return '\\' + chr(c)
     return chr(c)
